@@ -24,7 +24,7 @@
 enum { O_CREATE, O_RELEASE, O_JOIN, O_TRYJOIN, O_TIMEDJOIN, O_DETACH, O_YIELD, O_CYCLES, O_NOPS };
 enum { B_QUICK, B_YIELDER, B_WAITER, B_SPAWNER, B_NKINDS };
 static const char * bname[] = { "quick", "yielder", "waiter", "spawner" };
-static const size_t stk_sz[] = { 0, 0, 16384, 24576, 32768, 65536, 69632, 131072, 262144 };   /* 0 = default stack */
+static const size_t stk_sz[] = { 0, 0, 16384, 24576, 32768, 65536, 69632, 131072, 262144, 16500, 20000, 33000, 70001 };   /* 0 = default stack; the last four are not page multiples (rounded up by the allocator) */
 #define NSTKSZ (int)(sizeof stk_sz / sizeof stk_sz[0])
 
 typedef struct tnode {
